@@ -1,3 +1,5 @@
+// F22/F25 native demos (public API): copy to noodles-sam/tests/ of the tree before commits 8512a20 / 3161baf: both tests panic
+// ("range end index N out of range for slice of length M"); they pass after the fixes.
 use noodles_sam as sam;
 
 #[test]
@@ -10,5 +12,18 @@ fn cr_at_end_of_sequence_then_empty_quality_scores() {
     if r.is_ok() {
         println!("seq: {:?}", record.sequence());
         println!("qual: {:?}", record.quality_scores());
+    }
+}
+
+#[test]
+fn cr_at_end_of_quality_scores_then_empty_data() {
+    let data = b"r\t4\t*\t0\t255\t*\t*\t0\t0\tAC\tII\r\t\n";
+    let mut reader = sam::io::Reader::new(&data[..]);
+    let mut record = sam::Record::default();
+    let r = reader.read_record(&mut record);
+    println!("read: {:?}", r);
+    if r.is_ok() {
+        println!("qual: {:?}", record.quality_scores());
+        println!("data: {:?}", record.data());
     }
 }
